@@ -123,6 +123,31 @@ func c13Faults() []faultForm {
 		{"unknown-property-repeated-name", "{{ zzO = {a: 1} }}{{ zzO.a }}\n\n{{ zzO.nosuch }}{{-- zzFault --}}", false},
 		{"unknown-function-repeated-name", "{{ zzQ = 4 }}{{ zzQ.str() }}\n\n{{ zzQ.nosuchfn() }}{{-- zzFault --}}", false},
 		{"unknown-function-repeated-function-name", "@if(false){{ 1.zzFn() }}@end\n\n{{ 2.zzFn() }}{{-- zzFault --}}", false},
+		// an unknown name at every position an expression can stand in: the line is that of the name
+		{"unknown-identifier-at-shorthand-property", "{{ zzO2 = { zzFault } }}", false},
+		{"unknown-identifier-at-shorthand-property", "{{ zzA2 = 1 }}\n{{ { zzA2, zzFault } }}", false},
+		{"unknown-identifier-at-object-value", "{{ {a: 1,\nb: zzFault} }}", false},
+		{"unknown-identifier-at-array-element", "{{ [1,\n2, zzFault] }}", false},
+		{"unknown-identifier-at-call-argument", "{{ 'a'.repeat(zzFault) }}", false},
+		{"unknown-identifier-at-call-argument", "{{ [1, 2].slice(0,\nzzFault) }}", false},
+		{"unknown-identifier-at-index", "{{ [1][zzFault] }}", false},
+		{"unknown-identifier-at-ternary-branch", "{{ true ? zzFault : 1 }}", false},
+		{"unknown-identifier-at-ternary-branch", "{{ false ? 1 :\nzzFault }}", false},
+		{"unknown-identifier-at-ternary-condition", "{{ zzFault ? 1 : 2 }}", false},
+		{"unknown-identifier-at-unary-operand", "{{ -zzFault }}", false},
+		{"unknown-identifier-at-unary-operand", "{{ !zzFault }}", false},
+		{"unknown-identifier-at-assignment", "{{ zzY = zzFault }}", false},
+		{"unknown-identifier-at-second-statement", "{{ zzZ = 1; zzFault }}", false},
+		{"unknown-identifier-at-for-init", "@for(i = zzFault; i < 2; i++)x@end", false},
+		{"unknown-identifier-at-for-condition", "@for(i = 0; i < zzFault; i++)x@end", false},
+		{"unknown-identifier-at-for-post", "@for(i = 0; i < 1; i = zzFault)x@end", false},
+		{"unknown-identifier-at-breakIf", "@each(zzV in [1])@breakIf(zzFault)@end", false},
+		{"unknown-identifier-at-continueIf", "@each(zzV in [1])\n@continueIf(zzFault)@end", false},
+		{"unknown-identifier-at-elseif", "@if(false)a@elseif(zzFault)b@end", false},
+		{"unknown-identifier-at-receiver", "{{ zzFault.len() }}", false},
+		{"unknown-identifier-at-dot-base", "{{ zzFault.x }}", false},
+		{"unknown-identifier-at-index-base", "{{ zzFault[0] }}", false},
+		{"unknown-identifier-at-parenthesised", "{{ (1 + (zzFault)) }}", false},
 		{"unknown-identifier-repeated-in-index", "{{ zzA = [1, 2] }}{{ zzI = 0 }}{{ zzA[zzI] }}\n\n{{ zzA[zzI + zzNone] }}{{-- zzFault --}}", false},
 	}
 }
@@ -406,7 +431,7 @@ func TestC13_Trees(t *testing.T) {
 			}
 			page += "@insert(\"content\")\n" + fill() + compUse("1", "\n"+fill()+ff.src+"\n") + "@end\n"
 		case "page-component-arg":
-			if ff.parseTime || ff.kind == "unknown-identifier" && strings.HasPrefix(ff.src, "@") || strings.Contains(ff.kind, "-repeated-") {
+			if ff.parseTime || strings.HasPrefix(ff.src, "@") || strings.Contains(ff.kind, "-repeated-") || strings.Contains(ff.kind, "-at-") {
 				ff = faultForm{"unknown-identifier", "{{ zzFault }}", false}
 				cs.Fault = ff.kind
 			}
